@@ -148,8 +148,10 @@ SQL_DDL = """
         batch_num_samp               NDARRAY,
         method_samp                  NDARRAY
     );
+"""
 
-    DELETE FROM checkpoint;
+SQL_DELETE_QUERY = """
+    DELETE FROM checkpoint
 """
 
 
@@ -348,6 +350,10 @@ def save_calibrator_state(  # noqa: PLR0913
         cursor = connection.cursor()
         cursor.execute(SQL_SAVE_USER_VERSION)
         cursor.executescript(SQL_DDL)
+
+        # executescript() commits: the previous checkpoint must be deleted in the same transaction as the
+        # INSERT of the new one, so that a failure in between rolls back to the previous checkpoint
+        cursor.execute(SQL_DELETE_QUERY)
 
         cursor.execute(
             SQL_SAVE_QUERY,
